@@ -140,16 +140,18 @@ PROPS = {
     },
     "C08": {
         "title": "Ranges, phase ranges and range rates equal the standard's formulas",
-        "design_ref": "DESIGN.md §7 C08, §4.6",
-        "technique": "Lean 4 proof of the exact (scaled-integer) layer incl. 64-bit wrap modelling, invalid markers, MSM4=MSM7; exact binary64 model with accuracy theorems for range in metres and range rate; frequency tables regenerated from the source; phase range in cycles and Doppler by exact-rational oracle (partial)",
+        "design_ref": "DESIGN.md §7 C08, §4.6, §0",
+        "technique": "Lean 4 proof of the exact (scaled-integer) layer incl. 64-bit wrap modelling, invalid markers, MSM4=MSM7, over functions TRANSLATED from the Go source on every run; exact integer model of binary64 arithmetic with accuracy theorems for all four float results (omega over scaled integers, one instance per carrier frequency); frequency tables regenerated from the source; bit-for-bit comparison of the float model with the hardware",
         "text": "Kernel-checked theorems: the scaled integers GetAggregateRange/PhaseRange/PhaseRangeRate compute are exactly whole*2^29+frac*2^19+fine (MSM4: fine*32), whole*2^31+frac*2^21+phase (MSM4: *4), "
                 "rough*10000+fine for all field values with non-negative true value (the |-of-shifted-parts is a sum, the uint64(int64()) cast is the identity - proved, wrap case exhibited); an invalid rough value gives zero, "
-                "each invalid fine value falls back to the rough value, an MSM4 and an MSM7 cell encoding the same quantity agree. Frequency tables, markers and scale constants are regenerated from the source and pinned "
-                "to the documented bands. Float layer: range_metres_accurate (float64(scaled)/2^29*299792.458 is within 2^-51 of the formula for every aggregate range) and rate_accurate (float64(scaled)/10000 is within 2^-53) "
-                "are proved in an exact integer model of binary64 rounding, which the harness compares BIT FOR BIT with the hardware results (MSM4 and MSM7 range in metres, rate in m/s). The phase range in cycles and the Doppler "
-                "(further divisions by a wavelength that is itself a rounded quotient) are PARTIAL: compared with exact rational arithmetic to 8 ulp.",
-        "note": "Phase range (cycles) and Doppler (Hz) are not theorems; 'to within floating-point rounding' is checked against big.Rat on every generated cell. Exponent range/subnormals are not modelled (values between 2^-20 and 2^40).",
-        "assumptions": ["IEEE-754 binary64 arithmetic; float64(uint64) conversion exact below 2^53"],
+                "each invalid fine value falls back to the rough value, an MSM4 and an MSM7 cell encoding the same quantity agree. translated_is_model: the Lean functions the translator regenerates from getScaledValue, "
+                "GetScaledRange, GetScaledPhaseRange and GetScaledPhaseRangeRate on every run ARE the model's functions. Frequency tables, markers and scale constants are regenerated from the source and pinned to the documented "
+                "bands. Float layer, in an exact integer model of binary64 (round to 53 bits nearest-even; conversion, multiplication, division): range in metres within 2^-51 of scaled/2^29*299792.458; range rate within 2^-53 "
+                "of scaled/10000; phase range in cycles within 2^-50 of scaled*f/(2^31*1000) and Doppler within 2^-50 of -(scaled/10000)*f/299792458 for every carrier frequency f of the regenerated tables (frequencies_covered), "
+                "with wavelength = fl(299792458/f) as the code computes it. The float model is compared BIT FOR BIT (sign, exponent, significand) with the hardware results of RangeInMetres, PhaseRange, PhaseRangeRate and "
+                "PhaseRangeRateDoppler on every generated cell, and all results with exact rational arithmetic.",
+        "note": "Exponent range/subnormals are not modelled (all values lie between 2^-20 and 2^40); the hardware is tied to the model by comparison, not by proof. The display of these floats (fmt %f) is covered by C07/C15 sweeps only.",
+        "assumptions": ["IEEE-754 binary64 arithmetic with round-to-nearest-even (compared bit for bit with the model on every generated cell)", "float64(uint64) conversion exact below 2^53"],
     },
     "C13": {
         "race": True,
